@@ -11,7 +11,7 @@ EXPLAIN = ('gateway rotation path (rotate_signers, and per initial set the const
            'h = keccak256(xdr(N)), the EpochBySignersHash write is must-guarded by absence of that key (duplicate check) whose '
            'read is not preceded by a write of the key; (R3) in rotate_signers the path is must-guarded by a valid proof '
            '(C01 facts) over D = keccak256(xdr((CommandType::RotateSigners, N))) for the same N that is installed, and by '
-           'bypass OR latest (C08.R3); (R4) every success exit is preceded by all four writes and the event; '
+           'bypass OR latest (C08.R3), and no other entry point writes the rotation keys or emits the event (who-may-rotate); (R4) every success exit is preceded by all four writes and the event; '
            '(R5) the constructor guards initial_signers non-empty and installs each element through the same writes.')
 NOT_DECIDED = 'that a failed call leaves state untouched is host atomicity (T1): the code bumps Epoch before its duplicate check.'
 ASSUME = ['T1', 'T3', 'T5', 'T6']
